@@ -114,6 +114,7 @@ Rt15Ok(d) == LET M == MsgPat(d.ml, 3) IN
          /\ d.ml < d.k - 11 => V15Decode(em, <<83>>, d.ml + 1) = <<"sentinel", <<83>>>>
 RtOaepLeaves(g) == LET mx == OaepMaxLen(g.k, HLenOf(g.hash)) IN
    {[fam |-> "rtoaep", k |-> g.k, hash |-> g.hash, gk |-> g.gk, ml |-> ml, li |-> li] : ml \in RtLens(IF mx < 0 THEN 0 - 1 ELSE mx), li \in {1, 2}}
+RtOaepLeavesOf(g) == IF Big(g.k) THEN {d \in RtOaepLeaves(g) : d.li = 1 + (d.ml % 2)} ELSE RtOaepLeaves(g)         \* at real sizes the labels alternate
 IsToy(h) == h \in {"toy1", "toy2", "toy3"}
 RtOaepOk(d) == LET hl == HLenOf(d.hash)  M == MsgPat(d.ml, 5)  g == MgfOf(d.gk, d.hash)  lab == Labels[d.li] IN
    /\ OaepCanEncode(d.k, hl, d.ml) <=> d.ml <= d.k - (2 * hl) - 2
@@ -122,20 +123,22 @@ RtOaepOk(d) == LET hl == HLenOf(d.hash)  M == MsgPat(d.ml, 5)  g == MgfOf(d.gk, 
          /\ Len(em) = d.k /\ em[1] = 0
          /\ OaepDecodeNamed(em, d.hash, g, lab) = <<"ok", M>>
          /\ OaepDecodeNamed(em, d.hash, g, <<1>> \o lab) = OaepErr                                                      \* another label
-ShortOk(d) == OaepDecodeNamed([i \in 1..d.k |-> i % 2], d.hash, MgfOf("mgf1", d.hash), <<>>) = OaepErr /\ ~OaepCanEncode(d.k, HLenOf(d.hash), 0)
+ShortOk(d) == /\ d.k < (2 * HLenOf(d.hash)) + 2
+              /\ OaepDecodeNamed([i \in 1..d.k |-> i % 2], d.hash, MgfOf("mgf1", d.hash), <<>>) = OaepErr /\ ~OaepCanEncode(d.k, HLenOf(d.hash), 0)
 
 \* ------------------------------------------------------------------ configurations (cfg files cannot write tuples: they substitute these)
 None == {}
 \* small: every position; toy hashes of 1..3 octets from the shortest possible k upwards
 SmallOaepKHs == {<<4, 1>>, <<5, 1>>, <<8, 1>>, <<6, 2>>, <<7, 2>>, <<9, 2>>, <<12, 2>>, <<8, 3>>, <<9, 3>>, <<12, 3>>}
 QuickOaepKHs == {<<4, 1>>, <<6, 2>>, <<7, 2>>, <<12, 2>>, <<9, 3>>}
-SmallShortKHs == {<<3, "toy1">>, <<4, "toy2">>, <<5, "toy2">>, <<7, "toy3">>}
+SmallShortKHs == {<<2, "toy1">>, <<3, "toy1">>, <<3, "toy2">>, <<4, "toy2">>, <<5, "toy2">>, <<4, "toy3">>, <<7, "toy3">>}     \* k < hLen + 2 and hLen + 2 <= k < 2 hLen + 2
 SmallRtOaepKHs == {<<4, "toy1", "toy">>, <<9, "toy1", "mgf1">>, <<6, "toy2", "toy">>, <<12, "toy2", "mgf1">>, <<16, "toy2", "toy">>, <<8, "toy3", "mgf1">>, <<14, "toy3", "toy">>}
 \* real sizes: k = 64 (512 bits), 65 (513 bits), 96, 128 (1024 bits)
-RealDbKHs == {<<64, "SHA1">>, <<65, "SHA1">>, <<96, "SHA1">>, <<128, "SHA1">>, <<96, "SHA256">>, <<128, "SHA256">>, <<66, "SHA256">>}
+RealDbKHs == {<<42, "SHA1">>, <<64, "SHA1">>, <<65, "SHA1">>, <<96, "SHA1">>, <<128, "SHA1">>, <<96, "SHA256">>, <<128, "SHA256">>, <<66, "SHA256">>}
 RealOaepKHs == {<<64, 3>>, <<128, 2>>}                      \* toy hashes at real sizes (masking is cheap)
-RealShortKHs == {<<64, "SHA256">>, <<65, "SHA256">>, <<40, "SHA1">>, <<41, "SHA1">>}
-RealRtOaepKHs == {<<64, "SHA1", "mgf1">>, <<65, "SHA1", "mgf1">>, <<96, "SHA1", "mgf1">>, <<128, "SHA1", "mgf1">>, <<96, "SHA256", "mgf1">>, <<128, "SHA256", "mgf1">>,
+RealShortKHs == {<<64, "SHA256">>, <<65, "SHA256">>, <<40, "SHA1">>, <<41, "SHA1">>, <<21, "SHA1">>, <<64, "SHA512">>, <<65, "SHA512">>, <<96, "SHA512">>,
+                 <<128, "SHA512">>, <<96, "SHA384">>}
+RealRtOaepKHs == {<<42, "SHA1", "mgf1">>, <<66, "SHA256", "mgf1">>, <<64, "SHA1", "mgf1">>, <<65, "SHA1", "mgf1">>, <<96, "SHA1", "mgf1">>, <<128, "SHA1", "mgf1">>, <<96, "SHA256", "mgf1">>, <<128, "SHA256", "mgf1">>,
                   <<64, "SHA256", "mgf1">>, <<64, "toy3", "toy">>, <<65, "toy2", "mgf1">>, <<128, "toy3", "mgf1">>, <<128, "SHA1", "toy">>}
 \* ------------------------------------------------------------------ the graph
 Groups ==
@@ -151,7 +154,7 @@ Next == \/ c.fam = "g15" /\ c' \in V15Leaves(c)
         \/ c.fam = "goaep" /\ c' \in OaepLeaves(c)
         \/ c.fam = "gdb" /\ c' \in DbLeaves(c)
         \/ c.fam = "grt15" /\ c' \in Rt15Leaves(c)
-        \/ c.fam = "grtoaep" /\ c' \in RtOaepLeaves(c)
+        \/ c.fam = "grtoaep" /\ c' \in RtOaepLeavesOf(c)
 Sound == CASE c.fam = "v15" -> V15Ok(c) [] c.fam = "oaep" -> OaepOk(c) [] c.fam = "oaepdb" -> DbOk(c) [] c.fam = "rt15" -> Rt15Ok(c)
            [] c.fam = "rtoaep" -> RtOaepOk(c) [] c.fam = "short" -> ShortOk(c) [] OTHER -> TRUE
 EmitInv == Emit => CASE c.fam = "v15" -> PrintT(<<"CASE", ToJson(V15Json(c))>>)
